@@ -57,9 +57,9 @@ Count(s, x) == Cardinality({j \in 1..Len(s) : s[j] = x})
 SameBag(a, b) == Len(a) = Len(b) /\ \A x \in SeqToSet(a) \cup SeqToSet(b) : Count(a, x) = Count(b, x)
 
 (* ------------------------- effective keys (C07) ------------------------- *)
-\* letters: ASCII plus the few Latin-1 letters the catalogue uses (Rust identifiers may be non-ASCII; lowercasing is Unicode's)
-LowerAlpha == "abcdefghijklmnopqrstuvwxyzéäüø"
-UpperAlpha == "ABCDEFGHIJKLMNOPQRSTUVWXYZÉÄÜØ"
+\* letters: ASCII plus the Latin-1 letters (Rust identifiers may be non-ASCII; lowercasing is Unicode's)
+LowerAlpha == "abcdefghijklmnopqrstuvwxyzàáâãäåæçèéêëìíîïðñòóôõöøùúûüýþ"
+UpperAlpha == "ABCDEFGHIJKLMNOPQRSTUVWXYZÀÁÂÃÄÅÆÇÈÉÊËÌÍÎÏÐÑÒÓÔÕÖØÙÚÛÜÝÞ"
 PosIn(c, alpha) == IF \E i \in 1..Len(alpha) : SubSeq(alpha, i, i) = c THEN CHOOSE i \in 1..Len(alpha) : SubSeq(alpha, i, i) = c ELSE 0
 IsUpperC(c) == PosIn(c, UpperAlpha) > 0
 IsLowerC(c) == PosIn(c, LowerAlpha) > 0
@@ -240,7 +240,7 @@ LocRV(loc) == RV("loc", FALSE, 0, DZero, "", "", loc)
 Frame(n, loc, val, ob, ety, cl) ==
     [n |-> n, loc |-> loc, val |-> val, ob |-> ob, ety |-> ety, ph |-> cl.ph, pend |-> cl.pend, vi |-> cl.vi, det |-> cl.det,
      eloc |-> cl.eloc, okv |-> cl.okv, since |-> {}, brk |-> FALSE, fail |-> FALSE, res |-> <<>>, hand |-> <<>>,
-     rogue |-> FALSE, parsed |-> <<>>, optv |-> {},
+     rogue |-> FALSE, parsed |-> <<>>, optv |-> {}, optdone |-> {},
      fnp |-> NoFn, mapped |-> {}, mres |-> <<>>, vst |-> "none", fv |-> UnitRV, phb |-> cl.ph,
      fkeys |-> IF Nodes[n].c \in {"struct", "enum"} THEN KeysOf(Nodes[n], cl.vi) ELSE <<>>]
 
@@ -402,7 +402,9 @@ Candidates(stack, cur) ==
             ELSE
             \* Freedom (cur.lax): a map entry whose key could not be parsed is a fault of the key; the value behind it may be left
             \* alone (the pinned code) or examined as well, any time before the map returns - its faults are real faults of the payload
-            LET opt == IF cur.lax THEN UNION {StartOf(F, Ob("optval", j), cur.pk) : j \in F.optv} ELSE {} IN
+            \* (before or after the key's own report: the two are independent)
+            LET badpend == IF IsMapTarget(N) THEN {ob.i : ob \in {o \in F.pend : o.o = "entry" /\ ParseKey(cur.pk, N.name, F.val.e[o.i].k).z # "some"}} ELSE {}
+                opt == IF cur.lax THEN UNION {StartOf(F, Ob("optval", j), cur.pk) : j \in (F.optv \cup badpend) \ F.optdone} ELSE {} IN
             IF F.pend = {} THEN (IF F.fail THEN exiterr ELSE PostSteps(F)) \cup opt
             ELSE LET obs == IF cur.canonical THEN {CHOOSE ob \in F.pend : \A o2 \in F.pend : ObLeq(ob, o2)} ELSE F.pend
                  IN UNION {StartOf(F, ob, cur.pk) : ob \in obs} \cup opt
@@ -416,7 +418,8 @@ Pop(stack) == SubSeq(stack, 1, Len(stack) - 1)
 
 \* enter child: push a frame (obligation ob of the parent is now in flight)
 PushChild(stack, cur, n, loc, val, ob, ety) ==
-    LET par == [Top(stack) EXCEPT !.pend = @ \ {ob}, !.optv = IF ob.o = "optval" THEN @ \ {ob.i} ELSE @]
+    LET par == [Top(stack) EXCEPT !.pend = @ \ {ob}, !.optv = IF ob.o = "optval" THEN @ \ {ob.i} ELSE @,
+                                  !.optdone = IF ob.o = "optval" THEN @ \cup {ob.i} ELSE @]
         cl  == Classify(n, val, loc, cur.pk)
         fr  == Frame(n, loc, val, ob, ety, cl)
         fr2 == IF IsMapTarget(Nodes[n]) /\ val.t = "map"
@@ -434,7 +437,7 @@ AfterErr(stack, id, ob, a) ==
     LET s1 == AddSince(stack, id) F == Top(s1) IN
     SetTop(s1, IF F.ph \in {"bad", "jbad"} THEN [F EXCEPT !.ph = "fin", !.fail = TRUE]
                ELSE [F EXCEPT !.pend = @ \ {ob}, !.fail = TRUE, !.brk = (a = "b"),
-                              !.optv = IF ob.o = "entry" /\ IsMapTarget(Nodes[F.n]) THEN @ \cup {ob.i} ELSE @])
+                              !.optv = IF ob.o = "entry" /\ IsMapTarget(Nodes[F.n]) /\ ob.i \notin F.optdone THEN @ \cup {ob.i} ELSE @])
 
 AfterMrg(stack, ob, a) == SetTop(stack, [Top(stack) EXCEPT !.pend = @ \ {ob}, !.fail = TRUE, !.brk = (a = "b")])
 
